@@ -413,6 +413,9 @@ class Model3d(MagicProperties):
         new_traces = []
         for trace in traces:
             updatefunc = None
+            if isinstance(trace, Trace3d):
+                # a copy: a trace object given to several objects must not be shared between them
+                trace = trace.copy()
             if not isinstance(trace, Trace3d) and callable(trace):
                 updatefunc = trace
                 trace = Trace3d()
